@@ -181,3 +181,11 @@ def replay_element_global(sp):
         return dict(confirmed=bool(err > 1e-8), observed="max difference %.3e" % err, input="%s object used on two meshes" % name)
     except Exception as ex:
         return dict(confirmed=True, observed="raised %s: %s" % (type(ex).__name__, ex), input="%s object used on two meshes" % name)
+
+
+def replay_points(sp):
+    """refuted PROBES obligation: evaluate probes on real bases against the independent local expansion (stand-in family)."""
+    from native import standin_points as SP
+    r = SP.run(dict(tier="quick", seed=0))
+    f = [x for x in r["failures"] if "EVAL" in x["observed"] or "POINT-SOURCE" in x["observed"] or "QUAD" in x["observed"]]
+    return dict(confirmed=bool(f) if f else None, observed=[x["observed"] for x in f][:3], input=[x["input"] for x in f][:2])
